@@ -340,6 +340,11 @@ def standard_check(spec, tier, seed):
                         t.name, t.log, tail[-600:].replace("\n", " ")))
         if not handled or True:
             pairs = [(rs, r) for rs, r in pairs if not r.target.error]
+    import glob
+    for rs, r in pairs:
+        if rs.flavour == "cov":   # coverage counters of earlier runs
+            for f in glob.glob(r.target.bin + "-*.gcda"):
+                os.unlink(f)
     RN.execute([r for _, r in pairs], NCPU)
     collect(spec.prop, pairs, res, spec.crash_kinds, spec.any_prop)
     res.extra["pairs"] = pairs
